@@ -859,7 +859,8 @@ def get_next_imf_mask(X, z, amp, nphases=4, nprocesses=1,
 
     # Work with a partial function to make the parallel loop cleaner
     # This partial function contains all the settings which will be constant across jobs.
-    my_get_next_imf = functools.partial(get_next_imf, **imf_opts)
+    my_get_next_imf = functools.partial(get_next_imf, envelope_opts=envelope_opts,
+                                        extrema_opts=extrema_opts, **imf_opts)
 
     args = [[X+m[:, ii, np.newaxis]] for ii in range(nphases)]
 
